@@ -1,4 +1,5 @@
 """C03 / C11 -- pairing wiring, identity filter and coefficient producer/consumer agreement."""
+import roles
 import itertools
 
 import bitlin
@@ -15,11 +16,9 @@ FROM_AFFINE = 'bls12_381::<impl bls12_381::ec::g2::G2Prepared>::from_affine'
 
 
 def g2prepared_from_affine(fx):
-    for p in fx.fns:
-        if p.endswith('G2Prepared>::from_affine') or p.endswith('G2Prepared::from_affine'):
-            if fx.body(p) is not None:
-                return p
-    return None
+    # the constructor <G2Affine as CurveAffine>::prepare forwards to
+    p = roles.roles(fx).get('g2prepared_from_affine')
+    return p if p and fx.body(p) is not None else None
 
 
 def producer_pattern(fx, rep):
@@ -89,8 +88,9 @@ def expected_steps(x):
 
 def rule_miller(fx, rep):
     steps = producer_pattern(fx, rep)
-    x = (fx.consts.get('bls12_381::BLS_X') or {}).get('v')
-    neg = (fx.consts.get('bls12_381::BLS_X_IS_NEGATIVE') or {}).get('v')
+    R = roles.roles(fx)
+    x = (fx.consts.get(R.get('bls_x')) or {}).get('v')
+    neg = (fx.consts.get(R.get('bls_x_neg')) or {}).get('v')
     C.check_bls_x(fx, rep)
     if steps is None or x is None:
         return
@@ -320,13 +320,13 @@ def rule_wiring(fx, rep):
     # pairing_with in both directions
     for g, aff, order in (('G1', 'bls12_381::ec::g1::G1Affine', (1, 2)), ('G2', 'bls12_381::ec::g2::G2Affine', (2, 1))):
         pw = fx.impl_method('CurveAffine', aff, 'pairing_with')
-        pp = aff + '::perform_pairing'
+        pp = roles.roles(fx)[g].get('perform_pairing')
         okw = False
         if pw and fx.body(pw):
             rep.fn(pw)
             cs = [callee(tt) for _, tt in fx.body(pw).calls()]
             okw = len(cs) == 1 and (cs[0].get('res') or '') == pp
-        b = fx.body(pp)
+        b = fx.body(pp) if pp else None
         okp = False
         why = ''
         if b is not None:
